@@ -3,8 +3,8 @@ import random
 from .. import core, gen, ref
 from . import cu
 
-MODULES = ['DsdVerif.Props.C08', 'DsdVerif.Props.PyFuncs', 'DsdVerif.Props.C08Dlc']
-GEN_FILES = ['PyFuncs']
+MODULES = ['DsdVerif.Props.C08', 'DsdVerif.Props.PyFuncs', 'DsdVerif.Props.C08Dlc', 'DsdVerif.Lemmas.PyObjExt']
+GEN_FILES = ['PyFuncs', 'PyComplexS']
 THEOREM_NAMES = ['loop_index_spec', 'loop_index_modes_agree', 'exterior_spec', 'not_connected_of_error', 'error_of_not_connected',
                  'makeLoopIndex_linear',
                  # object level (Model/CplxObject): Props/C08Obj.lean
@@ -16,7 +16,10 @@ THEOREMS = ['Dsd.C08.' + t for t in THEOREM_NAMES] + ['Dsd.PyFuncs.' + t for t i
     'py_loop_index_raises_iff_disconnected', 'py_make_pair_table_eq']] + ['Dsd.C08.' + t for t in [
     # is_domainlevel_complement (Model/Dlc.lean follows the loop with its early return)
     'dlc_true_iff', 'dlc_true_iff_unconditional', 'dlc_total', 'dlc_false_iff', 'dlc_false_iff_witness', 'dlc_error',
-    'dlc_of_make_pair_table', 'dlc_one_sided_of_make_pair_table', 'mpt_partner_valid']]
+    'dlc_of_make_pair_table', 'dlc_one_sided_of_make_pair_table', 'mpt_partner_valid']] + [
+    # exterior_domains / enclosed_domains / __loop_index as written in the source (Gen/PyComplexS.lean): on a coherent object they answer
+    # the cache-free specification edSpec / liSpec (raising exactly when it raises) and leave the object coherent
+    'Dsd.PyObj.Ext.view_exterior', 'Dsd.PyObj.Ext.view_enclosed', "Dsd.PyObj.Ext.exec_p_loop_index'"]
 ASSUMPTIONS = [
     'make_loop_index is hand-modelled on linear positions (Model/Complex.lean: loopStep, makeLoopIndex) and tied to the code by the '
     'correspondence stream `loop` (both `components` modes)',
@@ -66,7 +69,8 @@ def run(res, proof):
     ops = []
     clear_singletons(DomainS)
     SUB = type('MyComplex', (ComplexS,), {})
-    doms = {n: DomainS(n, 5) for n in ('a', 'b', 'c')}
+    # domain lengths are irrelevant to every view here, zero (a legal length, and a falsy object: DomainS defines __len__) included
+    doms = {n: DomainS(n, l) for n, l in (('a', 5), ('b', 0), ('c', 0))}
     dlc_ops, dlc_impl = [], []
     doms.update({n + '*': ~d for n, d in list(doms.items())})
     for s in structs:
